@@ -105,3 +105,4 @@ CFG = dict(
 
 CFG["rule"] += ' Also the histories around descriptor sets 9 / 10 (see C11) and registrations from a backend whose reflection stream ends with an error status after everything was answered (R<c>.<d>~): a call that returns an error must not have published.'
 CFG["rule"] += " Race stage (C12R): after every operation, with the 4 concurrent request streams held, every probe of the mux must be a possible answer of a reference mux that went through the same operations alone; 24 random histories plus 6 register / drop churn histories with the streams on the fixed paths; the streams' requests carry 20000 Upgrade values (longer between loading the state and routing)."
+CFG["rule"] += ' Local registrations pass the same implementation object every time that implementation is registered (a registration of an implementation that is already serving must not touch a published snapshot either).'
